@@ -75,10 +75,12 @@ type Comment struct {
 }
 
 func (c Comment) String() string {
-	if c.Text != "" {
-		return "# " + strings.TrimSpace(c.Text) + "\n"
+	if text := strings.TrimSpace(c.Text); text != "" {
+		return "# " + text + "\n"
 	}
-	return ""
+	// An empty comment still occupies its line, if it printed as nothing the comment
+	// above it would end up directly above whatever follows
+	return "#\n"
 }
 
 // Literal returns the go literal version of the comment e.g. "# This is a comment".
@@ -194,7 +196,9 @@ func (t Task) String() string {
 		}
 	}
 
-	s.WriteString(t.Docstring.String())
+	if strings.TrimSpace(t.Docstring.Text) != "" {
+		s.WriteString(t.Docstring.String())
+	}
 
 	s.WriteString("task ")
 	s.WriteString(t.Name.String())
